@@ -386,8 +386,9 @@ class Advisory:
             routerid: RouterID | None = None,
         ) -> None:
             # Handle both string and bytes input
-            if isinstance(advisory, bytes):
-                utf8 = advisory
+            if isinstance(advisory, (bytes, bytearray, memoryview)):
+                # the decoder hands over a slice of the message body, which the reactor reads as a memoryview
+                utf8 = bytes(advisory)
             else:
                 utf8 = advisory.encode('utf-8')
             if len(utf8) > MAX_ADVISORY:
@@ -407,8 +408,9 @@ class Advisory:
             routerid: RouterID | None = None,
         ) -> None:
             # Handle both string and bytes input
-            if isinstance(advisory, bytes):
-                utf8 = advisory
+            if isinstance(advisory, (bytes, bytearray, memoryview)):
+                # the decoder hands over a slice of the message body, which the reactor reads as a memoryview
+                utf8 = bytes(advisory)
             else:
                 utf8 = advisory.encode('utf-8')
             if len(utf8) > MAX_ADVISORY:
